@@ -92,7 +92,7 @@ for X in ('a', 'g'):
         f'{L}.update_{X}_factor', props=['C04', 'C05'],
         params={'alpha': KDyn},
         requires=[('alpha_is_number', 'isinstance(alpha, (int, float)) and not isinstance(alpha, bool)'),
-                  ('batch_2d', f'implies(self._{X}_batch is not None, len(self._{X}_batch.shape) == 2)')],
+                  ('batch_square', f'implies(self._{X}_batch is not None, is_square(self._{X}_batch.shape))')],
         lets={'M': f'(smul(1 / old(self._{X}_count), old(val(self._{X}_batch))) if old(self._{X}_count) > 1 else old(val(self._{X}_batch)))',
               'prev': f'(diag(full([old(self._{X}_batch.shape[0])], 1.0)) if old(self._{X}_factor) is None else old(val(awaited(self._{X}_factor))))'},
         ensures=[
@@ -100,6 +100,8 @@ for X in ('a', 'g'):
             ('decayed_running_average', f'implies(old(self._{X}_batch) is not None, is_tensor(self._{X}_factor) and '
                                         f'val(self._{X}_factor) == add(smul(alpha, prev), smul(1 - alpha, M)))'),
             ('batch_consumed', f'self._{X}_batch is None'),
+            ('factor_stays_square', f'implies(old(self._{X}_batch) is not None and '
+                                    f'(old(self._{X}_factor) is None or is_square(old(awaited(self._{X}_factor).shape))), is_square(self._{X}_factor.shape))'),
             ('count_kept', f'self._{X}_count == old(self._{X}_count)'),
             ('first_factor_has_batch_dtype', f'implies(old(self._{X}_batch) is not None and old(self._{X}_factor) is None, '
                                              f'self._{X}_factor.dtype is old(self._{X}_batch.dtype))'),
@@ -156,6 +158,8 @@ contract(
         ('gradient_metadata_kept', f'{MW}.grad.shape == old({MW}.grad.shape) and {MW}.grad.contig and '
                                    f'implies({MB} is not None, {MB}.grad.shape == old({MB}.grad.shape) and {MB}.grad.contig)'),
         ('consumed', 'self._grad is None'),
+        ('gradients_still_present', f'{MW}.grad is not None and implies({MB} is not None, {MB}.grad is not None)'),
+        ('new_gradient_objects', f'is_fresh({MW}.grad) and implies({MB} is not None, is_fresh({MB}.grad))'),
         ('raw_gradient_storage_untouched', f'val(old({MW}.grad)) == old(val({MW}.grad))'),
     ],
     modifies=['self._grad', f'{MW}.grad', f'{MB}.grad', '*.resolved', 'ghost:next_sid'],
@@ -166,12 +170,15 @@ contract(
     params={'src': KInt, 'group': G},
     requires=GRADS + PENDING('_grad') + [('member_of_group', 'in_group(group)'), ('root_is_member', 'rank_in_group(src, group)'),
                                          ('tdc_present', 'self.tdc is not None'),
+                                         ('grad_2d', 'implies(self._grad is not None, len(awaited(self._grad).shape) == 2)'),
                                          ('preconditioned_gradient_is_its_own_tensor',
                                           f'implies(self._grad is not None, awaited(self._grad) is not {MW}.grad and '
                                           f'implies({MB} is not None, awaited(self._grad) is not {MB}.grad))')],
     raises=[('RuntimeError', 'self._grad is None and my_rank() == src')],
     ensures=[
         ('has_gradient', 'self._grad is not None'),
+        ('still_2d_and_its_own_tensor', f'len(awaited(self._grad).shape) == 2 and awaited(self._grad) is not {MW}.grad and '
+                                        f'implies({MB} is not None, awaited(self._grad) is not {MB}.grad)'),
         ('root_keeps_value', 'implies(my_rank() == src, val(awaited(self._grad)) == old(val(awaited(self._grad))))'),
         ('alone_nothing_sent', 'implies(group_size(group) == 1, trace() == old(trace()))'),
         ('one_broadcast_otherwise', 'implies(group_size(group) != 1, len(trace()) == len(old(trace())) + 1)'),
